@@ -106,6 +106,7 @@ func (s *atpServerSession) sendRuntimeMessage(msgID uint32, runID string, messag
 func (s *atpServerSession) handleClosure() []*ServerError {
 	// Wait for work done or context complete.
 	var errors []*ServerError
+	inputClosed := false
 closeLoop:
 	for {
 		select {
@@ -127,8 +128,9 @@ closeLoop:
 			if err != nil {
 				_, _ = fmt.Fprintf(os.Stderr, "error while sending error message: %s\n", err)
 			}
-			// If either the error report sending failed, or the error was server fatal, stop here.
-			if err != nil || errorSent.ServerFatal {
+			// If either the error report sending failed, or the error was server fatal, stop reading input.
+			if (err != nil || errorSent.ServerFatal) && !inputClosed {
+				inputClosed = true
 				err = s.stdinCloser.Close()
 				if err != nil {
 					return append(errors, &ServerError{
@@ -137,9 +139,10 @@ closeLoop:
 						StepFatal:   true,
 						ServerFatal: true,
 					})
-				} else {
-					break closeLoop
 				}
+				// Keep draining: steps that are still running report their errors through workDone, which
+				// holds three entries only. The loop ends when run() closes the channel after they are done.
+				continue
 			}
 		case <-s.ctx.Done():
 			// Likely got sigterm. Just close. Ideally gracefully.
